@@ -436,6 +436,9 @@ func (server *SugarDB) getState() map[int]map[string]interface{} {
 	for db, store := range server.store {
 		data[db] = make(map[string]interface{})
 		for k, v := range store {
+			// Sets, sorted sets and hashes are changed in place by later commands while the copy is
+			// still being encoded: the copy gets values of its own.
+			v.Value = internal.CopyValue(v.Value)
 			data[db][k] = v
 		}
 	}
